@@ -163,6 +163,41 @@ let op_mate (args : string list) (line : string) : string =
   | _ -> "BAD-ARGS"
 
 
+(* matem <n> <fen> : the same two answers as "mate" (forced_mate_within n / forced_loss_within n of the extracted rules),
+   computed with a memo table keyed by (placement, side, rights, ep, remaining moves).  Only legal_moves, make_move and
+   checkmate of the extracted rules are used; the recursion is literally that of Rules.forced_mate_within. *)
+let memo_win : (string * int, bool) Hashtbl.t = Hashtbl.create 100003
+let pos_key (p : M.position) : string =
+  let f = ostr (M.fen_print p) in
+  (* drop the two clocks *)
+  match String.split_on_char ' ' f with
+  | a :: b :: c :: d :: _ -> String.concat " " [a; b; c; d]
+  | _ -> f
+let rec win_within (n : int) (p : M.position) : bool =
+  if n <= 0 then false else
+    let k = (pos_key p, n) in
+    match Hashtbl.find_opt memo_win k with
+    | Some r -> r
+    | None ->
+      let r = List.exists (fun m ->
+          let q = M.make_move p m in
+          let lq = M.legal_moves q in
+          M.checkmate q || (lq <> [] && List.for_all (fun m' -> win_within (n - 1) (M.make_move q m')) lq))
+          (M.legal_moves p) in
+      Hashtbl.replace memo_win k r; r
+let loss_within (n : int) (p : M.position) : bool =
+  let l = M.legal_moves p in
+  M.checkmate p || (l <> [] && List.for_all (fun m -> win_within n (M.make_move p m)) l)
+let op_matem (args : string list) (line : string) : string =
+  match args with
+  | n :: _ ->
+    with_fen (rest_after line 2) (fun p ->
+        let k = int_of_string n in
+        if Hashtbl.length memo_win > 3000000 then Hashtbl.reset memo_win;
+        Printf.sprintf "%d %d" (if win_within k p then 1 else 0) (if loss_within k p then 1 else 0))
+  | _ -> "BAD-ARGS"
+
+
 (* s2s <v> : the model of score2str *)
 let op_s2s (args : string list) : string =
   match args with
@@ -704,6 +739,7 @@ let dispatch (line : string) : string =
      | "legal" -> op_legal (rest_after line 1)
      | "valid" -> op_valid (rest_after line 1)
      | "mate" -> op_mate args line
+     | "matem" -> op_matem args line
      | "threats" -> op_threats (rest_after line 1)
      | "hm" -> op_hm args
      | "egeval" -> op_egeval (rest_after line 1)
